@@ -24,7 +24,7 @@ ASSUMPTIONS = ['mass is conserved to rtol min(1e-6, max(1e-9, 256*eps*max|parame
                'zero sets leave at least half of every key\'s cells possible, so a feasible distribution exists',
                'RDA / IG measurements use projections of >= 2 cells']
 PLAN = {
-    'quick': dict(cases=200, budget_s=75, case_timeout=300, min_cases=50),
+    'quick': dict(cases=200, budget_s=120, case_timeout=300, min_cases=30),
     'thorough': dict(cases=4000, budget_s=900, case_timeout=600, min_cases=666),
 }
 
